@@ -6,24 +6,23 @@ CONSTANTS
   Errs = {"e1", "e2"}
   Invs = {"i1"}
   Conns = {"c1", "c2"}
-  OmitChoices = {0, 999999999}
+  OmitChoices = {0, 2}
   InitStamps = {0}
   NoDefault = {"p1"}
-  InitScopeSets = {{}, {"all"}}
+  InitScopeSets = {{}, {"mod2"}}
   HiddenChoices = {{}}
-  ActScopes = {"all", "p1"}
+  ActScopes = {"all"}
   RepKinds = {}
   MaxNow = 4
-  Depth = 10
+  Depth = 4
   FullParams = {"p1"}
   LiteParams = {"p2"}
-  GenConns = {"c2"}
+  GenConns = {}
   GenDefaults = {"a"}
   GenLiteOmit = {0}
   GenFixedSub = {"all"}
-  GenFullKinds = {"ReadOk", "ReadRaise", "ReadInvalid", "Write", "Assign", "AnnounceErr", "Untouched"}
-  GenExtra = {"At", "Nest", "Deact", "Untouched"}
+  GenFullKinds = {"ReadInvalid", "Assign"}
+  GenExtra = {"NestInv"}
 CONSTRAINT Bound
-ACTION_CONSTRAINT EmitStep
-VIEW AbstractView
+INVARIANT EmitMax
 CHECK_DEADLOCK FALSE
